@@ -351,11 +351,14 @@ def random_case(rng):
     return {'ops': ops}
 
 
-def _work(cases):
+def _work(args):
+    cases, deadline = args
     sc.install()
     sc.fast_digest(True)
     out = []
     for case in cases:
+        if sc.expired(deadline):
+            break
         found, execs = run_case(case)
         out.append((case, found, execs))
     return out
@@ -373,17 +376,20 @@ def run(tier: str, seed: int) -> dict:
     if tier == 'quick':
         nrand, procs = 400, 1
     else:
-        nrand, procs = 12000, min(16, os.cpu_count() or 1)
+        nrand, procs = 24000, min(16, os.cpu_count() or 1)
     rand = [random_case(rng) for _ in range(nrand)]
     cases = core + rand
+    deadline = t0 + sc.BUDGET_S[tier]
     if procs > 1:
         import multiprocessing
 
+        chunks = [cases[i :: procs * 8] for i in range(procs * 8)]
         with multiprocessing.get_context('fork').Pool(procs) as pool:
-            parts = pool.map(_work, _chunks(cases, procs * 8))
+            parts = pool.map(_work, [(c, deadline) for c in chunks], chunksize=1)
         results = [r for part in parts for r in part]
     else:
-        results = _work(cases)
+        results = _work((cases, deadline))
+    skipped = len(cases) - len(results)
     viol = sc.Violations()
     execs = 0
     sigs = set()
@@ -406,7 +412,8 @@ def run(tier: str, seed: int) -> dict:
         'samples': [core[1], core[2], rand[0], rand[1]],
         'violations': viol.as_list(),
         'clauses': CLAUSES,
-        'histories': len(cases),
+        'histories': len(results),
+        'skipped_for_time': skipped,
         'wall_s': round(time.time() - t0, 2),
     }
 
